@@ -96,6 +96,44 @@ class FlatCnn(nn.Module):
         return self.fc(torch.flatten(y, 1))
 
 
+class CatNet(nn.Module):
+    """channel concatenations in front of the classifier: cat(flatten, flatten), nested, together with the flattened
+    network input (constant-features producer); the concat calculators register buffers (state_dict keys) on the Linear"""
+    shape = (3, 4, 4)
+
+    def __init__(self):
+        super().__init__()
+        self.c0 = nn.Conv2d(3, 4, 3, padding=1)
+        self.c1 = nn.Conv2d(3, 5, 3, padding=1)
+        self.pool = nn.AvgPool2d(2)
+        self.fc = nn.Linear(4 * 4 + 5 * 4 + 3 * 16, 6)
+        self.fc2 = nn.Linear(6, 3)
+
+    def forward(self, x):
+        a = torch.flatten(self.pool(torch.relu(self.c0(x))), 1)
+        b = torch.flatten(self.pool(torch.relu(self.c1(x))), 1)
+        y = torch.cat([torch.cat([a, b], dim=1), torch.flatten(x, 1)], dim=1)
+        return self.fc2(torch.relu(self.fc(y)))
+
+
+class CatNet2(nn.Module):
+    """cat(flatten(conv), flatten(conv)) -> Linear, and a channel concat of two conv outputs feeding a conv"""
+    shape = (3, 4, 4)
+
+    def __init__(self):
+        super().__init__()
+        self.c0 = nn.Conv2d(3, 3, 3, padding=1)
+        self.c1 = nn.Conv2d(3, 4, 3, padding=1)
+        self.c2 = nn.Conv2d(7, 4, 3, padding=1)
+        self.fc = nn.Linear(4 * 16 + 3 * 16, 3)
+
+    def forward(self, x):
+        a = torch.relu(self.c0(x))
+        b = torch.relu(self.c1(x))
+        y = torch.relu(self.c2(torch.cat([a, b], dim=1)))
+        return self.fc(torch.cat([torch.flatten(y, 1), torch.flatten(a, 1)], dim=1))
+
+
 class MpsCnn(nn.Module):
     """residual add (shared activation quantiser, MPSAdd), conv-BN (folded by MPS), linear head."""
     shape = (3, 4, 4)
@@ -245,16 +283,16 @@ def build(kind: str, variant: str, init: Dict[str, Any], wseed: int):
     with warnings.catch_warnings():
         warnings.simplefilter("ignore")
         if kind == "pit":
-            net = {"tcn": PitTcn, "tcn_foldbn": PitTcn, "cnn2d": Cnn2d, "flat": FlatCnn}[variant]()
+            net = {"tcn": PitTcn, "tcn_foldbn": PitTcn, "cnn2d": Cnn2d, "flat": FlatCnn, "cat": CatNet, "cat2": CatNet2}[variant]()
             _randomize(net, gen)
             net.train(train)
             m = PIT(net, cost=cs, input_shape=net.shape, full_cost=fc, discrete_cost=bool(init.get("dc", False)),
                     fold_bn=(variant == "tcn_foldbn"))
         elif kind == "mps":
-            net = MpsSeq() if variant == "seq" else MpsCnn()
+            net = {"seq": MpsSeq, "cat": CatNet, "cat2": CatNet2}.get(variant, MpsCnn)()
             _randomize(net, gen)
             net.train(train)
-            wt = MPSType.PER_LAYER if variant in ("layer", "seq") else MPSType.PER_CHANNEL
+            wt = MPSType.PER_LAYER if variant in ("layer", "seq", "cat") else MPSType.PER_CHANNEL
             wp = (0, 2, 4, 8) if variant.endswith("0") else (2, 4, 8)
             kw = {}
             if "temp" in init:       # constructor temperature as given (int or float: the TYPE matters)
